@@ -178,7 +178,9 @@ def _mk_case(rng, mode=None, n=None, herm=None):
             "n": n,
             "shape": _shapes_for(rng, n),
             "herm": herm if herm is not None else rng.random() < 0.5,
-            "t": rng.choice(T_CHOICES + [round(rng.uniform(0.0, 2.0), 3)] * 3),
+            # the library itself calls time_evolve with NEGATIVE durations (link updates, backward site update of the
+            # two-site scheme): a quarter of the cases has t < 0 (round-4 seed C05-R4B: t_span = (0, |t|))
+            "t": rng.choice(T_CHOICES + [round(rng.uniform(0.0, 2.0), 3)] * 3) * rng.choice([1, 1, 1, -1]),
             "forward": rng.random() < 0.5,
             "real_psi": rng.random() < 0.3,
             "real_h": rng.random() < 0.25,
